@@ -234,6 +234,27 @@ def run(prog, rep, tier='quick', config='default'):
         if n_ret == 0:
             rep.violation('R13b', '%s|anchor-lost:cache-return' % fn.name, fn=fn.name, detail='anchor lost: no return of cache-derived rates found')
 
+    # ------------------------------------------------------------------ R13e: the cache stores the downloaded rates losslessly
+    from props import c06
+    wr = prog.trait_impl_methods(CACHE_TRAIT, 'write_rates') if hasattr(prog, 'trait_impl_methods') else []
+    wr = [w for w in wr if w is not None and not mir.is_testsupport(w.name) and 'testlib' not in w.name]
+    if not wr:
+        rep.violation('R13e', 'anchor-lost:cache-writers', detail='anchor lost: no implementation of RatesCache::write_rates')
+    for w in wr:
+        grp = {n: g for n, g in prog.callees_closure([w]).items() if g.crate == w.crate}
+        for h in list(grp.values()):
+            for cl in prog.closures_of(h):
+                grp[cl.name] = cl
+        lossy = [(g, c) for g in grp.values() for c in g.calls if c06.LOSSY.search(c.callee) or c06.LOSSY.search(c.decl)]
+        k = '%s|cache-stores-rates-losslessly' % w.name
+        if lossy:
+            g, c = lossy[0]
+            rep.violation('R13e', k, where=c.where(), fn=g.name,
+                          detail='writing the cache reaches %s: the run that downloads a year computes with the exact rate, every later run served '
+                                 'from the cache with the rounded one' % short(c.callee))
+        else:
+            rep.ok('R13e', k, fn=w.name, detail='no rounding / truncating / float conversion reachable from the cache writer (%d functions)' % len(grp))
+
     # ------------------------------------------------------------------ R-TS
     n_ts = 0
     for name, f in prog.fns.items():
